@@ -95,12 +95,17 @@ def c02_const_sides():
     """A literal on the LEFT or on the right of every binary operator, against every operand type (the operator must not be
     mirrored, commuted or re-typed because one side is constant)."""
     out = []
-    for (t, w, _), op, k in itertools.product(TYPES, BINOPS, ["3", "7U", "(-5)", "200LL", "0x10", "1"]):
-        if op in SHIFT and k in ("(-5)", "200LL"):
+    for (t, w, _), op, k in itertools.product(TYPES, BINOPS, ["3", "7U", "(-5)", "200LL", "0x10", "1", "4U", "2LL", "256ULL", "8"]):
+        if op in SHIFT and k in ("(-5)", "200LL", "256ULL"):
             continue
         d = decl(t, w, "a", "s")
         out.append(f"{{ {d} RddV = {k} {op} a; }}")
         out.append(f"{{ {d} RddV = a {op} {k}; }}")
+    for (t, w, _), k in itertools.product(TYPES, ["4U", "2LL", "256ULL", "8", "16U"]):
+        d = decl(t, w, "a", "s")
+        out.append(f"{{ {d} RddV = (a * {k}) > RttV; }}")
+        out.append(f"{{ {d} RddV = (a * {k}) >> 1; }}")
+        out.append(f"{{ {d} RddV = ({k} * a) / 3U; }}" if False else f"{{ {d} RddV = ({k} * a) - RttV; }}")
     for (t, w, _), k in itertools.product(TYPES, ["3", "7U", "(-5)", "200LL"]):
         d = decl(t, w, "a", "s")
         out.append(f"{{ {d} RddV = ({k} <= a) ? {k} : a; }}")
@@ -135,6 +140,18 @@ def c02_narrow():
     return out
 
 
+def c02_spellings():
+    """The keyword spellings of the 32-bit types (`int`, `unsigned int`, `unsigned`, `signed int`) against every operand type."""
+    out = []
+    for sp, (t2, w2, _), op in itertools.product(["int", "unsigned int", "unsigned"], TYPES, BINOPS):
+        out.append(f"{{ {sp} a = RsV; {decl(t2, w2, 'b', 't')} RddV = a {op} b; }}")
+        out.append(f"{{ {sp} a = RsV; {decl(t2, w2, 'b', 't')} RddV = b {op} a; }}")
+    for sp in ["int", "unsigned int", "unsigned"]:
+        out += [f"{{ {sp} a = RsV; RddV = -a; }}", f"{{ {sp} a = RsV; RddV = ~a; }}", f"{{ {sp} a = RsV; RddV = (int64_t)a; }}", f"{{ {sp} a = RsV; RddV = a >> 3; }}",
+                f"{{ {sp} a = RsV; RddV = RtV + a; }}", f"{{ {sp} a = RsV; RddV = (RtV > 0) ? a : RttV; }}", f"{{ RddV = ({sp})RssV; }}", f"{{ {sp} a = RsV; a += RtV; RddV = a; }}"]
+    return out
+
+
 def c02_const_truth():
     """&& and || with a compile-time truth value on one side: still the operator's C truth table."""
     out = []
@@ -147,15 +164,13 @@ def c02_const_truth():
 def c02(tier):
     rng = random.Random(seed() * 7919 + 2)
     nr = c02_narrow()
-    return c02_depth1() + c02_const_sides() + c02_const_truth() + (nr if tier == "thorough" else nr[::3]) + c02_depth2(tier, rng) + c02_random(tier, rng)
+    return c02_depth1() + c02_const_sides() + c02_const_truth() + c02_spellings() + (nr if tier == "thorough" else nr[::3]) + c02_depth2(tier, rng) + c02_random(tier, rng)
 
 
 def wf_subs():
     """Test sub-routines for the well-formedness checks: C08's set + bodies that mention hi / pkt / bundle in every combination."""
     subs = dict(c08_subs())
     subs.update({
-        "vf_setd": dict(return_type="void", params=["HexInsnPktBundle *bundle", "const HexOp *RdV", "int32_t v"], code="{ RdV = v; }"),
-        "vf_getx": dict(return_type="int32_t", params=["HexInsnPktBundle *bundle", "const HexOp *RxV"], code="{ return RxV + 1; }"),
         "vf_fadd": dict(return_type="uint32_t", params=["uint32_t a", "uint32_t b"],
                         code="{ return fUNFLOAT(FLOAT(RZ_FLOAT_IEEE754_BIN_32, a) + FLOAT(RZ_FLOAT_IEEE754_BIN_32, b)); }"),
         "vf_usr": dict(return_type="uint32_t", params=["HexInsnPktBundle *bundle"], code="{ return HEX_REG_ALIAS_USR + 1; }"),
@@ -178,7 +193,7 @@ def wf_family(prop, tier):
     d1 = c02_depth1()
     out += d1 if tier == "thorough" else d1[::4]
     out += c05_struct()
-    c3 = c03(tier)
+    c3 = [p_ for p_ in c03(tier) if "({" not in p_]
     out += c3 if tier == "thorough" else c3[::2]
     c17p = c17(tier)
     out += c17p if tier == "thorough" else c17p[::3]
@@ -188,7 +203,9 @@ def wf_family(prop, tier):
             "{ R1:0 = R3:2; }", "{ R0 = HEX_REG_ALIAS_PC; }", "{ R0 = NsN; }", "{ ; }", "{ }", "{ cancel_slot; }", "{ R0 = clz32(R1); }",
             "{ R0 = fUNFLOAT(FLOAT(RZ_FLOAT_IEEE754_BIN_32, R1) + FLOAT(RZ_FLOAT_IEEE754_BIN_32, R2)); }",
             "{ set_usr_field(bundle, HEX_REG_FIELD_USR_OVF, 1); }", "{ R0 = get_usr_field(bundle, HEX_REG_FIELD_USR_OVF); }",
-            "{ vf_setd(bundle, RdV, 3); }", "{ RxV = vf_getx(bundle, RxV); }", "{ R0 = vf_fadd(R1, R2); }", "{ R0 = vf_usr(bundle); }",
+            "{ vf_setd(bundle, RdV, 3); }", "{ RxV = vf_getx(bundle, RxV); }", "{ vf_setd(bundle, R3, 3); }", "{ RxV = vf_getx(bundle, R2); }",
+            "{ RxV = vf_getx(bundle, HEX_REG_ALIAS_LR); }", "{ vf_setd(bundle, HEX_REG_ALIAS_SP, 4); }", "{ RxV = vf_getx(bundle, NsN); }", "{ RxV = vf_getx(bundle, P1); }",
+            "{ vf_setd(bundle, P2, 1); }", "{ RxV = vf_getx(bundle, R1:0); }", "{ vf_setd(bundle, C1_NEW, 1); }", "{ RxV = vf_getx(bundle, R3_NEW); }", "{ vf_setd(bundle, M0, 1); }", "{ R0 = vf_fadd(R1, R2); }", "{ R0 = vf_usr(bundle); }",
             "{ vf_expl(bundle, R2); }", "{ R0 = vf_pure(R1); }", "{ R0 = vf_npc(bundle); }", "{ vf_cancel(bundle, R1); }",
             "{ int32_t hi_x = RsV; RdV = hi_x; }", "{ int32_t pktx = RsV; RdV = pktx; }", "{ int32_t this_hi = R1; R0 = this_hi; }"]
     # postfix operators and loop counters of every width
@@ -210,6 +227,18 @@ def wf_family(prop, tier):
         out.append("{ EA = RsV; RdV = " + " + ".join(["(int32_t)mem_load_u8(EA)"] * min(n, 4)) + "; }")
         out.append("{ RdV = " + " | ".join(["P0"] * n) + "; }")
         out.append("{ RdV = " + " + ".join(["HEX_REG_ALIAS_SP"] * n) + "; }")
+    for k in ["2 < 1", "1 < 2", "sizeof(int64_t) != 8", "sizeof(int32_t) == 4", "0", "1", "(3 == 3) && (2 > 1)", "!1"]:
+        out += [f"{{ for (i = 0; {k}; i++) {{ RxV = RxV + 1; i = 5; }} }}", f"{{ if ({k}) {{ RxV = 1; }} else {{ RxV = RxV + 2; }} }}", f"{{ RxV = ({k}) ? RsV : RtV; }}",
+                f"{{ RxV = RxV + (({k}) && RsV); }}", f"{{ RxV = RxV + (({k}) || RsV); }}", f"{{ RxV = RxV + !({k}); }}", f"{{ PdV = ({k}); }}", f"{{ mem_store_u8(RsV, ({k})); }}"]
+    import re as _re
+    # operand programs whose load / store ADDRESS is an expression (the address computation is an operand of the load node)
+    out += [p_ for p_ in c07(tier) if _re.search(r"mem_(load|store)_\w+\([^,)]*[-+]", p_) and "RyyV =" not in p_]
+    out += ["{ RxxV = mem_load_u32(RsV + 4); }", "{ RxxV = mem_load_s8(RsV + RtV) + mem_load_s8(RsV - RtV); }", "{ RxxV = mem_load_u16((RsV << 2) + uiV); }",
+            "{ mem_store_u32(RsV + 4, mem_load_u32(RtV + 8)); }", "{ if (mem_load_u8(RsV + 1)) { RxxV = 1; } }", "{ RxxV = clz32(mem_load_u32(RsV + 12)); }"]
+    for tok in ["R1:0", "R3", "C1:0_NEW", "P1", "M0", "R3_NEW", "HEX_REG_ALIAS_UTIMER", "HEX_REG_ALIAS_LR_NEW", "RssV", "NsN", "PtN", "RxxV"]:
+        for n in (2, 3):
+            out.append("{ RyyV = RyyV + " + " + ".join([tok] * n) + "; }")
+            out.append("{ RyyV = RyyV + (" + f"{tok} * {tok}" + ") - " + tok + "; }")
     out += mixed(tier, 2500 if tier == "thorough" else 200, salt=10, stmt_expr=False)
     nr = c02_narrow()
     out += nr if tier == "thorough" else nr[1::2]
@@ -282,6 +311,26 @@ def c03(tier):
         for sg, w in itertools.product("us", (8, 16, 32, 64)):
             out.append(f"{{ {d} mem_store_{sg}{w}(RtV, a); }}")        # memory store of width w
             out.append(f"{{ {d} EA = RtV; mem_store_{sg}{w}(EA, a); RddV = mem_load_{sg}{w}(EA); }}")
+    # the source of the conversion is a value-producing operation (postfix, call, statement-expression, macro, load) in every
+    # conversion context: initialiser, assignment, cast, argument, register write, store
+    for (s_, ws, _), (t, wt, _) in itertools.product(TYPES, TYPES):
+        if s_ == t:
+            continue
+        d = decl(s_, ws, "a", "s")
+        out.append(f"{{ {d} {t} y = a++; RddV = y; }}")
+        out.append(f"{{ {d} {t} y = vf_id_{s_}(a); RddV = y; }}")
+        out.append(f"{{ {d} {t} y = ({{ a = a + 1; a; }}); RddV = y; }}")
+        out.append(f"{{ {d} {t} y; y = a--; RddV = y; }}")
+        out.append(f"{{ {d} RddV = ({t})a++; }}")
+        out.append(f"{{ {d} RddV = ({t})vf_id_{s_}(a); }}")
+    for (t, wt, _) in TYPES:
+        out.append(f"{{ {t} y = clz32(RsV); RddV = y; }}")
+        out.append(f"{{ {t} y = fbrev(RsV); RddV = y; }}")
+        out.append(f"{{ {t} y = extract32(RsV, 4, 13); RddV = y; }}")
+        out.append(f"{{ {t} y = sextract64(RssV, 4, 40); RddV = y; }}")
+        out.append(f"{{ {t} y = mem_load_s16(RsV); RddV = y; }}")
+        out.append(f"{{ {t} y = mem_load_u32(RsV); RddV = y; }}")
+        out.append(f"{{ {t} y = (RsV > 0) ? RtV : RuuV; RddV = y; }}")
     # boolean source
     for (t, wt, _) in TYPES:
         out.append(f"{{ RddV = ({t})(RsV < RtV); }}")
@@ -395,6 +444,9 @@ def c05_struct():
             out.append(f"{{ {t} q; RxV = 0; for (q = {src(w, 'u')}; q != 0; q = q >> {sh}) {{ RxV = RxV + 2; }} RyV = RyV + q; }}")
         out.append(f"{{ {t} q; RxV = 0; for (q = {src(w, 'u')}; q; q <<= {sh}) {{ RxV = RxV + 1; }} }}")
         out.append(f"{{ {decl(t, w, 'q', 'u')} int m; RxV = 0; for (m = 0; q; m++) {{ q = q << {sh}; RxV = RxV + 1; }} RyV = RyV + m; }}")
+    out += ["{ RxV = 1; /* one */ RyV = RyV + 2; }", "{ /* a */ RxV = 1; /* b */ RyV = RyV + 2; /* c */ }", "{ RxV = 1; /* a */ RyV = RyV + 2; /* b */ RxV = RxV + RyV; }",
+            "{ if (RsV) { RxV = 1; } /* x */ else { RxV = 2; } /* y */ RyV = RyV + RxV; }", "{ RxV = 1; // line\n RyV = RyV + 2; }",
+            "{ for (i = 0; i < 2; i++) { /* p */ RxV = RxV + 1; /* q */ } }", "{ RxV = /* in */ 3 /* side */ + RsV; }", "{ RxV = 1; /* a * b / c */ RyV = RyV + 2; /**/ RxV = 7; }"]
     out.append("{ if (RssV) { RxV = 1; } else { RxV = 2; } }")
     out.append("{ if (RssV & 0xffffffff00000000ULL) { RxV = 1; } else { RxV = 2; } }")
     out.append("{ RxV = (RssV << 32) ? 1 : 2; }")
@@ -500,6 +552,10 @@ def c06(tier):
             out.append(f"{{ {C06_PRE} RyV = {hc} ? RtV : {arm}; {C06_POST} }}")
             out.append(f"{{ {C06_PRE} RyV = {hc} ? {arm} : ({{ m = m * 3; m; }}); {C06_POST} }}")
             out.append(f"{{ {C06_PRE} if ({hc}) {{ RyV = {arm}; }} else {{ RyV = 9; }} {C06_POST} }}")
+    for h in ["n++", "clz32(n)", "m--", "({ n = n + 2; n; })", "revbit32(m)", "RxV++"]:
+        out.append(f"{{ {C06_PRE} n = n + 1; m = m & 1; for ({h}; m < 3; m++) {{ RyV = RyV + n; }} {C06_POST} }}")
+        out.append(f"{{ {C06_PRE} n = n * 2; m = 0; for ({h}; m < 2; m = m + 1) {{ RyV = RyV ^ n; }} {C06_POST} }}")
+        out.append(f"{{ {C06_PRE} for (i = 0; i < 2; {h}) {{ i = i + 1; RyV = RyV + n + m; }} {C06_POST} }}")
     # loop steps
     for step in ["i++", "i = i + 1", "i += 2", "n++", "n--"]:
         v = "i" if step[0] == "i" else "n"
@@ -593,6 +649,15 @@ def c07(tier):
             out.append(f"{{ EA = RsV; mem_store_{sg}{w}(EA, RttV); }}")
             out.append(f"{{ mem_store_{sg}{w}(RsV + uiV, RttV); RxxV = mem_load_{sg}{w}(RsV + uiV); }}")
             out.append(f"{{ EA = RsV; mem_store_{sg}{w}(EA, RttV); mem_store_u8(EA + 1, RuV); RxxV = mem_load_{sg}{w}(EA); }}")
+    for w in (8, 16, 32, 64):
+        out.append(f"{{ EA = RsV; RxxV = mem_load_s{w}(EA); RyyV = mem_load_u{w}(EA); }}")
+        out.append(f"{{ EA = RsV; RxxV = mem_load_u{w}(EA); RyyV = mem_load_s{w}(EA); }}")
+        out.append(f"{{ RxxV = mem_load_s{w}(RsV); RyyV = mem_load_u{w}(RsV); }}")
+        for w2 in (8, 16, 32, 64):
+            if w2 != w:
+                out.append(f"{{ EA = RsV; RxxV = mem_load_s{w}(EA); RyyV = mem_load_s{w2}(EA); }}")
+        out.append(f"{{ EA = RsV; RxxV = mem_load_s{w}(EA); mem_store_u8(EA, RtV); RyyV = mem_load_s{w}(EA); }}")
+        out.append(f"{{ EA = RsV; RxxV = mem_load_u{w}(EA); EA = EA + 8; RyyV = mem_load_u{w}(EA); }}")
     # jumps and pc
     out += ["{ JUMP(RsV); }", "{ JUMP(HEX_REG_ALIAS_PC + riV); }", "{ JUMP(RssV); }", "{ if (PuV & 1) { JUMP(RsV); } }",
             "{ if (PuV & 1) { JUMP(RsV); } else { JUMP(RtV); } }", "{ JUMP(RsV); JUMP(RtV); }",
@@ -621,6 +686,9 @@ def c08_subs():
         "vf_wide": dict(return_type="uint64_t", params=["int8_t a", "int64_t b"], code="{ return a * b; }"),
         "vf_two": dict(return_type="uint16_t", params=["uint8_t a", "int16_t b"],
                        code="{ uint16_t vf_two_t = a; if (b < 0) { vf_two_t = vf_two_t - b; } return vf_two_t; }"),
+        # registers passed BY REFERENCE (const HexOp *): letter operands are pointers already, explicit / alias / N registers are structs
+        "vf_setd": dict(return_type="void", params=["HexInsnPktBundle *bundle", "const HexOp *RdV", "int32_t v"], code="{ RdV = v; }"),
+        "vf_getx": dict(return_type="int32_t", params=["HexInsnPktBundle *bundle", "const HexOp *RxV"], code="{ return RxV + 1; }"),
         # names with upper-case letters (definition and call site must agree on the C identifier)
         "vf_SatAdd8": dict(return_type="int32_t", params=["int32_t a", "int32_t b"], code="{ if (a + b > 127) { return 127; } else { return a + b; } }"),
         "VF_UPPER": dict(return_type="uint16_t", params=["uint16_t a"], code="{ return vf_SatAdd8(a, 1) + 2; }"),
@@ -654,6 +722,11 @@ def c08(tier):
                     f"extract64({c}, 0, 33)", f"bswap16({c})", f"deposit64(m, 8, 16, {c})"):
             out.append(f"{{ {C08_PRE} n = n + 3; m = m ^ n; RyV = {mac}; {C08_POST} }}")
             out.append(f"{{ {C08_PRE} n = n + 3; RxxV = {mac} + clz32(n); n = 0; {C08_POST} }}")
+    # registers of every kind passed BY REFERENCE (the C reference models only same-name references: these are decided by the sort /
+    # operand-kind clauses of the WF engine, which run on every family program)
+    for r_ in ["RxV", "R3", "R2", "P1", "R1:0", "C1", "M0", "HEX_REG_ALIAS_LR", "HEX_REG_ALIAS_SP", "NsN", "R3_NEW", "RyV"]:
+        out.append(f"{{ RyV = vf_getx(bundle, {r_}); }}")
+        out.append(f"{{ vf_setd(bundle, {r_}, RsV + 1); }}")
     # seeded part: sub-routines with an open finding (early return, colliding local) are kept out of it
     ok = [c for c in C08_CALLS if not c.startswith(("vf_early", "vf_loc"))]
     pairs = list(itertools.product(ok, ok))
@@ -796,6 +869,9 @@ C15_STMTS = [
     "n++ + clz32(n) + RxV--;", "RxV = 1; n++ + RxV++; RyV = n;",
     "if (n) break;", "if (n) { continue; }", "{ break; }", "RxV = \"str\";", "RxV = 'c';", "RxV = 1.5;", "RxV = 010;",
     "RxV = 1L;", "RxV = 1UL;", "RxV = n >>> 1;", "RxV = n <=> 1;", "RxV = (n, n);",
+    # unknown functions whose names resemble the two names the transformer special-cases (fatal -> nothing, MEM_STORE0 -> NOP)
+    "fatal_unless(n);", "nonfatal_log(n);", "xfatal(n);", "fatal2(n);", "FATAL(n);", "RxV = fatal_value(n);", "MEM_STORE0x(n);", "MEM_STORE1(n);",
+    "xMEM_STORE0(n);", "mem_store0(n);", "hex_fatal_trap(n);", "fatal(n, n);",
 ]
 
 
